@@ -280,6 +280,58 @@ var snippets = []snippet{
 	var x uint = -1
 	_ = x
 }`},
+	{"named-sibling-assign", `{
+	type A int
+	type B int
+	var a A = 1
+	var b B = a
+	_ = b
+}`},
+	{"named-sibling-assign-stmt", `{
+	type A string
+	type B string
+	a, b := A("x"), B("y")
+	b = a
+	_ = b
+}`},
+	{"named-sibling-arg", `{
+	type A float64
+	type B float64
+	f := func(x B) B { return x }
+	var a A = 1.5
+	_ = f(a)
+}`},
+	{"named-sibling-return", `{
+	type A int
+	type B int
+	f := func(x A) B { return x }
+	_ = f(1)
+}`},
+	{"named-sibling-elem", `{
+	type A int
+	type B int
+	var a A = 3
+	_ = []B{a}
+}`},
+	{"named-sibling-mapkey", `{
+	type A string
+	type B string
+	var a A = "k"
+	_ = map[B]int{a: 1}
+}`},
+	{"named-sibling-field", `{
+	type A int
+	type B int
+	type S struct{ f B }
+	var a A = 3
+	_ = S{f: a}
+}`},
+	{"named-vs-basic-var", `{
+	type A int
+	var a A = 3
+	var i int = a
+	_ = i
+}`},
 	{"call-arg-count", `{
 	f := func(a int) int { return a }
 	_ = f(1, 2)
